@@ -8,7 +8,7 @@ use digital_test_runner::TestCase;
 pub const META_C15: Meta = Meta {
     id: "C15",
     level: "exploration",
-    rule: "Four monitors per case (profiles `flow`+`expand`+`virtual`, 0-5 declare statements, some programs using random with the seed pinned through the hook, ~40% static programs): (1) re-parse: the same text is parsed and bound 6 times in one process (fresh HashMap RandomState each time) - all TestCase values must be ==, with identical `signals` order and identical Display; a digest of (Display, signal order, row stream) is also written per case and the orchestrator compares the digests produced by two separate processes (the dev-profile and release-profile shards run the same cases); (2) re-iterate: 3 iterations of one &TestCase with fresh devices replaying one script (one of them entered through the deprecated alias run_iter, one iterating a clone() of the test without ever calling vars() - all other runs call vars() before the first next() and after every step) give identical item streams, vars() and driver call logs; (2b) abandon: an iterator is dropped after a random number of steps (possibly inside a C/X expansion), the next full iteration must equal the first; (3) interleave: 2-4 iterators over one &TestCase, each with its own device, next() interleaved by round-robin / sequential / PRNG schedules - every stream equals the solo stream; (4) static: try_iter_static().is_ok() iff the model reads no outputs (scope rule of C11), and then its (inputs incl. changed, expected, line) stream equals the projection of every dynamic run against 4 devices (empty layout, all outputs unique numbers, all Z, permuted subset with X), error items at the same index; 6% of the cases carry a planted variable that is in scope, never assigned on the executed path and named like a device output (such a program reads no outputs), and the static stream consumed through step_by(2..4) must deliver every k-th item of the plain stream (count() and last() on it must agree too), and try_iter(&mut static_test::Driver) (the crate's own zero-sized driver handed to the dynamic entry point) must deliver the static stream too. Non-trivial = >= 2 virtual signals, or >= 2 interleaved iterators with >= 3 rows each under a non-sequential schedule, or a static program with a C/X expansion.",
+    rule: "Four monitors per case (profiles `flow`+`expand`+`virtual`, 0-5 declare statements, some programs using random with the seed pinned through the hook, ~40% static programs): (1) re-parse: the same text is parsed and bound 6 times in one process (fresh HashMap RandomState each time) - all TestCase values must be ==, with identical `signals` order and identical Display; a digest of (Display, signal order, row stream) is also written per case and the orchestrator compares the digests produced by two separate processes (the dev-profile and release-profile shards run the same cases); (2) re-iterate: 3 iterations of one &TestCase with fresh devices replaying one script (one of them entered through the deprecated alias run_iter, one iterating a clone() of the test without ever calling vars() - all other runs call vars() before the first next() and after every step) give identical item streams, vars() and driver call logs; (2b) abandon: an iterator is dropped after a random number of steps (possibly inside a C/X expansion), the next full iteration must equal the first; (2c) history independence (half of the cases): the test, iterated several times by then, is run against a SECOND device (layout rotated and one signal swapped for another so that the length stays, other values) and must behave like a freshly parsed and bound test against that device; a clone of it then gets another `bits` on one signal (a public field) and must behave like a test bound with that width from the start; (3) interleave: 2-4 iterators over one &TestCase, each with its own device, next() interleaved by round-robin / sequential / PRNG schedules - every stream equals the solo stream; (4) static: try_iter_static().is_ok() iff the model reads no outputs (scope rule of C11), and then its (inputs incl. changed, expected, line) stream equals the projection of every dynamic run against 4 devices (empty layout, all outputs unique numbers, all Z, permuted subset with X), error items at the same index; 6% of the cases carry a planted variable that is in scope, never assigned on the executed path and named like a device output (such a program reads no outputs), and the static stream consumed through step_by(2..4) must deliver every k-th item of the plain stream (count() and last() on it must agree too), and try_iter(&mut static_test::Driver) (the crate's own zero-sized driver handed to the dynamic entry point) must deliver the static stream too. Non-trivial = >= 2 virtual signals, or >= 2 interleaved iterators with >= 3 rows each under a non-sequential schedule, or a static program with a C/X expansion.",
     assumptions: &["identical device scripts give identical answers (pure function of call index and signal)"],
     quick_cases: 40000,
     thorough_cases: 500000,
@@ -153,6 +153,12 @@ pub fn c15(case_seed: u64, acc: &mut Acc) {
     cfg.n_declares = (0, 5);
     cfg.max_depth = 3;
     cfg.block_items = (1, 4);
+    if r.chance(250, 1000) {
+        // boundary widths and boundary values: the static and the dynamic path, the first and
+        // the later iterations must reduce them alike
+        cfg.widths = 2;
+        cfg.big_values = true;
+    }
     let want_static = r.chance(400, 1000);
     if want_static {
         cfg.reads = 0;
@@ -319,6 +325,67 @@ pub fn c15(case_seed: u64, acc: &mut Acc) {
         // the static iterator shares the machinery
         if let Ok(Ok(items)) = static_stream(tc, seed, 1 + r.below(4)) {
             let _ = items;
+        }
+    }
+    // ---------------- (2c) history independence: what a test does against a device must not
+    // depend on which devices it met before, nor on when a public field got its value
+    if matches!(solo.0, Construct::Ok) && r.chance(500, 1000) {
+        let outs: Vec<usize> = (0..case.signals.len()).filter(|&i| case.signals[i].is_output() && !matches!(case.signals[i].kind, SigKind::Virtual(_))).collect();
+        let mut script_b = case.script.clone();
+        script_b.faults.clear();
+        if !script_b.layout.is_empty() {
+            script_b.layout.rotate_left(1);
+            if let Some(o) = outs.iter().find(|o| !script_b.layout.contains(o)) {
+                // same length, another set of signals
+                script_b.layout[0] = *o;
+            }
+        }
+        script_b.values = ValueFn::Unique { salt: r.next_u64(), narrow: true };
+        let fresh = parse(&pr.text).1.and_then(|p| bind(p, &case.signals).1);
+        if let Some(fresh) = fresh {
+            let want = run_bound(&fresh, &case.signals, &script_b, &opts);
+            // `tc` has been iterated several times against the first device by now
+            let got = run_bound(tc, &case.signals, &script_b, &opts);
+            acc.evaluations += 2;
+            acc.event("runs_against_a_second_device_after_the_first", 1);
+            if format!("{:?}", want.0) != format!("{:?}", got.0) {
+                viol!(Finding::new("history-dependent-constructor", format!("against a second device (layout {:?}): a test that met another device before gives {:?}, a fresh one {:?}", script_b.layout, got.0, want.0)));
+            }
+            if let Some(i) = same_items(&want.3, &got.3) {
+                viol!(Finding::new(
+                    "history-dependent-iteration",
+                    format!("against a second device (layout {:?}): item {i} is {:?} for a test that met another device before, {:?} for a fresh one", script_b.layout, got.3.get(i).map(|s| &s.item), want.3.get(i).map(|s| &s.item))
+                ));
+            }
+        }
+        // a public field that gets another value after the test has been iterated: `bits`
+        let cand: Vec<usize> = (0..case.signals.len()).filter(|&i| !matches!(case.signals[i].kind, SigKind::Virtual(_))).collect();
+        if !cand.is_empty() {
+            let i = *r.pick(&cand);
+            let alts: Vec<usize> = [1usize, 2, 8, 16, 33, 63, 64].into_iter().filter(|&b| b != case.signals[i].bits).collect();
+            let alt = *r.pick(&alts);
+            let mut sigs2 = case.signals.clone();
+            sigs2[i].bits = alt;
+            let mut changed = tc.clone();
+            if let Some(s) = changed.signals.iter_mut().find(|s| s.name == case.signals[i].name) {
+                s.bits = alt;
+            }
+            let fresh2 = parse(&pr.text).1.and_then(|p| bind(p, &sigs2).1);
+            if let Some(fresh2) = fresh2 {
+                let want = run_bound(&fresh2, &sigs2, &case.script, &opts);
+                let got = run_bound(&changed, &sigs2, &case.script, &opts);
+                acc.evaluations += 2;
+                acc.event("runs_after_changing_the_width_of_a_signal_of_an_iterated_test", 1);
+                if format!("{:?}", want.0) != format!("{:?}", got.0) {
+                    viol!(Finding::new("history-dependent-constructor", format!("signal {} set to {alt} bits after the test had been iterated: constructor {:?}, a test bound with that width from the start {:?}", case.signals[i].name, got.0, want.0)));
+                }
+                if let Some(k) = same_items(&want.3, &got.3) {
+                    viol!(Finding::new(
+                        "width-change-after-iteration-ignored",
+                        format!("signal {} set to {alt} bits (was {}) after the test had been iterated: item {k} is {:?}, a test bound with that width from the start gives {:?}", case.signals[i].name, case.signals[i].bits, got.3.get(k).map(|s| &s.item), want.3.get(k).map(|s| &s.item))
+                    ));
+                }
+            }
         }
     }
     // ---------------- (3) interleave
